@@ -409,6 +409,11 @@ def stepSimple (s : LSt) (op : Op) : Option (LSt × String) :=
     match aget s.S i with
     | none => ok s "dead"
     | some v => ok s (bstr v.slot.empty)
+  | .boolSq i =>
+    -- `slot_base::operator bool()`: `rep_ != nullptr` (true also for an invalidated slot that still has its rep)
+    match aget s.S i with
+    | none => ok s "dead"
+    | some v => ok s (bstr v.slot.rep.isSome)
   | .newG i fl =>
     match fl with
     | none => ok s "badtype"
